@@ -126,7 +126,7 @@ def T(name, text, obs, n3=False):
     return dict(name=name, text=text, obs=obs.split())
 
 
-# quick alphabet (14 templates)
+# quick alphabet (18 templates)
 QUICK = [
     T("fact1", "t(_)::a.", "a"),
     T("fact2", "t(_)::a.\nt(_)::b.", "a b"),
@@ -142,6 +142,15 @@ QUICK = [
     T("fixed-and-tunable", "0.4::a.\nt(_)::b.\nc :- a, b.", "b c"),
     T("tunable-body", "t(_)::a.\nt(_)::b :- a.", "a b"),
     T("neg-only", "t(_)::a.\nc :- \\+a.", "a c"),
+    # ADs with two fixed-probability heads (distinct values; fixed heads first, so that minimised cases of the
+    # single-fixed-head defects coincide with those of ad-fixed-1t / ad-fixed-2t): the mass
+    # left to the tunable heads is 1 - (sum of ALL fixed heads); with 2 tunable heads the configurations that
+    # normalise ("test", "cli") rescale to that mass at every iteration, with 1 tunable head it bounds the
+    # initial weight
+    T("ad-2fixed-2t", "0.2::c; 0.3::d; t(_)::a; t(_)::b.", "a b"),
+    T("ad-2fixed-1t", "0.2::c; 0.3::d; t(_)::a.", "a c"),
+    T("ad-2fixed-2t-body", "t(_)::e.\n0.2::c; 0.3::d; t(_)::a; t(_)::b :- e.", "a b"),
+    T("ad-2fixed-1t-body", "t(_)::e.\n0.2::c; 0.3::d; t(_)::a :- e.", "a e"),
 ]
 
 THOROUGH_EXTRA = [
@@ -184,6 +193,21 @@ THOROUGH_EXTRA = [
     T("fo-shared", "b(c).\nb(d).\nt(_)::p(X) :- b(X).", "p(c) p(d)"),
     T("fo-shared-rule", "b(c).\nb(d).\nt(_)::p(X) :- b(X).\nq :- p(c), p(d).", "p(c) q"),
     T("fo-ad-shared", "b(c).\nb(d).\nt(_)::p(X); t(_)::r(X) :- b(X).", "p(c) r(d)"),
+    # >= 2 fixed heads in an AD, further shapes (fixed heads on both sides of / after the tunable heads, observed
+    # fixed heads, observed body, 3 fixed heads, 3 tunable heads, explicit start value, fixed body, heads used by
+    # rules, latent tunable head)
+    T("ad-2fixed-2t-all", "0.3::c; t(_)::a; t(_)::b; 0.2::d.", "a b c"),
+    T("ad-2fixed-2t-fixed-observed", "0.3::c; t(_)::a; t(_)::b; 0.2::d.", "a d"),
+    T("ad-2fixed-2t-tail", "t(_)::a; t(_)::b; 0.2::c; 0.3::d.", "a b"),
+    T("ad-3fixed-2t", "0.1::c; t(_)::a; 0.2::d; t(_)::b; 0.3::e.", "a b"),
+    T("ad-2fixed-3t", "0.3::d; t(_)::a; t(_)::b; t(_)::c; 0.2::e.", "a b"),
+    T("ad-2fixed-2t-explicit", "0.3::c; t(0.2)::a; t(_)::b; 0.2::d.", "a b"),
+    T("ad-2fixed-2t-body-all", "t(_)::e.\n0.3::c; t(_)::a; t(_)::b; 0.2::d :- e.", "a b e"),
+    T("ad-2fixed-2t-fixedbody", "0.4::e.\n0.3::c; t(_)::a; t(_)::b; 0.2::d :- e.", "a b"),
+    T("ad-2fixed-2t-rule", "0.3::c; t(_)::a; t(_)::b; 0.2::d.\nq :- a.\nq :- c.", "b q"),
+    T("ad-2fixed-1t-tail", "t(_)::a; 0.2::c; 0.3::d.", "a c"),
+    T("ad-2fixed-1t-latent", "0.3::c; t(_)::a; 0.2::d.\nq :- a.\nq :- d.", "c q"),
+    T("ad-2fixed-1t-fixedbody", "0.4::e.\n0.3::c; t(_)::a; 0.2::d :- e.", "a e"),
 ]
 
 CONFIGS = {
@@ -205,6 +229,14 @@ MAX_EXAMPLES = {"quick": 3, "thorough": 4}
 
 def templates(tier):
     return QUICK if tier == "quick" else QUICK + THOROUGH_EXTRA
+
+
+def _only():
+    """development aid: VERIF_C24_ONLY=<prefix>[,<prefix>...] restricts a run to the templates whose name starts
+    with one of the prefixes"""
+    import os
+
+    return tuple(os.environ.get("VERIF_C24_ONLY", "").split(","))
 
 
 def has_multi_ad(clauses):
@@ -762,6 +794,8 @@ class C24(Prop):
     def shards(self, tier):
         out = []
         for ti, tpl in enumerate(templates(tier)):
+            if not tpl["name"].startswith(_only()):
+                continue
             kmax = max_examples(tpl, tier)
             nint = 3 ** len(tpl["obs"]) - 1
             nsets = sum(math.comb(nint + k - 1, k) for k in range(1, kmax + 1))
